@@ -125,4 +125,20 @@ theorem runTotal_mono (Ks Ks' : List (Rat × List Rat))
     apply div_le_div_of_nonneg_right (listSum_le _ _ h4)
     exact Nat.cast_nonneg _
 
+/-- `weight_select_bands` and the group filter depend on the selection only as a multiset: any reordering of
+    `select_bands` gives the same weight and the same kept groups -/
+theorem wsel_perm {l l' : List Nat} (h : l.Perm l') (ab : Nat × Nat) :
+    wsel (some l) ab = wsel (some l') ab ∧ selHits (some l) ab = selHits (some l') ab := by
+  constructor
+  · unfold wsel
+    simp only
+    rw [(h.filter _).length_eq]
+  · unfold selHits
+    simp only
+    rw [Bool.eq_iff_iff]
+    simp only [List.any_eq_true]
+    constructor
+    · rintro ⟨x, hx, hp⟩; exact ⟨x, h.mem_iff.mp hx, hp⟩
+    · rintro ⟨x, hx, hp⟩; exact ⟨x, h.mem_iff.mpr hx, hp⟩
+
 end WB.C14
